@@ -138,10 +138,15 @@ func buildSplatMesh(in []SplatIn) modeling.Mesh {
 }
 
 // splatCase runs one cloud through splat.Write and splat.Read.
-func (k *checker) splatCase(in []SplatIn, scope string) {
+// cs is the replay record (Kind "splat" carries the cloud, "splat-ladder" only its size); cs.Reader
+// selects the io.Reader behaviour of the read side.
+func (k *checker) splatCase(in []SplatIn, scope string, cs Case) {
 	c := k.c
 	n := len(in)
-	cs := Case{Kind: "splat", Splat: in}
+	if cs.Kind == "" {
+		cs = Case{Kind: "splat", Splat: in, Reader: cs.Reader}
+	}
+	mode := cs.Reader
 	const clauseCount = "same number of splats in order"
 	var buf bytes.Buffer
 	var werr, rerr error
@@ -157,22 +162,28 @@ func (k *checker) splatCase(in []SplatIn, scope string) {
 		return
 	}
 	written := append([]byte{}, buf.Bytes()...)
-	o = core.Guard(func() { back, rerr = splat.Read(bytes.NewReader(written)) })
+	o = core.Guard(func() { back, rerr = splat.Read(shaped(written, mode)) })
 	if o.Panicked || rerr != nil {
 		c.Eval(scope, "read-failed")
 		site := "splat.Read"
 		if o.Crash() {
 			site = core.TopFrame(o.Stack)
 		}
-		k.fail(site, "reading back a written splat cloud succeeds", fmt.Sprintf("n=%d", min(n, 2)), fmt.Sprint(o.Msg, rerr), cs)
+		k.fail(site, "reading back a written splat cloud succeeds", fmt.Sprintf("n=%d/%s", min(n, 2), modeName(mode)), fmt.Sprint(o.Msg, rerr), cs)
 		return
 	}
 	outcome := "ok"
 	defer func() { c.Eval(scope, outcome) }()
-	if n > 0 {
-		c.Nontrivial("splat", fmt.Sprint(in))
+	if cs.Kind == "splat-ladder" {
+		c.Nontrivial("splat-ladder", n, mode)
+		c.Sample(scope, map[string]any{"case": cs, "bytes": len(written)})
+	} else {
+		if n > 0 {
+			c.Nontrivial("splat", fmt.Sprint(in), mode)
+		}
+		c.Sample(scope, map[string]any{"splats": in, "reader": modeName(mode), "bytes": len(written)})
 	}
-	c.Sample(scope, map[string]any{"splats": in, "bytes": len(written)})
+	reported := 0 // at most a few records per case are written out
 
 	// the writer, judged by the independent reader
 	if len(written) != 32*n {
@@ -186,6 +197,9 @@ func (k *checker) splatCase(in []SplatIn, scope string) {
 		ref[i] = refDecodeSplat(written[32*i:])
 		for _, msg := range splatFieldErrors(in[i], ref[i]) {
 			outcome, writerBad = "mismatch", true
+			if reported++; reported > 4 {
+				break
+			}
 			f := fieldOf(msg)
 			k.fail("splat.Write", splatClause(f), splatEdgeClass(f, in[i]), fmt.Sprintf("record %d of %d (bytes decoded by the reference reader): %s", i, n, msg), cs)
 		}
@@ -193,7 +207,7 @@ func (k *checker) splatCase(in []SplatIn, scope string) {
 	// the reader
 	if back.AttributeLength() != n || back.PrimitiveCount() != n {
 		outcome = "mismatch"
-		k.fail("splat.Read", clauseCount, "count", fmt.Sprintf("n=%d read back %d attributes / %d primitives", n, back.AttributeLength(), back.PrimitiveCount()), cs)
+		k.fail("splat.Read", clauseCount, "count/"+sizeClass(n)+"/"+modeName(mode), fmt.Sprintf("n=%d read back %d attributes / %d primitives (reader: %s)", n, back.AttributeLength(), back.PrimitiveCount(), modeName(mode)), cs)
 		return
 	}
 	if n == 0 {
@@ -207,17 +221,30 @@ func (k *checker) splatCase(in []SplatIn, scope string) {
 		return
 	}
 	for i := range in {
+		if reported > 4 {
+			break
+		}
 		if bad := splatFieldErrors(in[i], out[i]); len(bad) > 0 && !writerBad {
 			// bytes were fine, so the reader is at fault
 			outcome = "mismatch"
+			reported++
 			f := fieldOf(bad[0])
-			k.fail("splat.Read", splatClause(f), splatEdgeClass(f, in[i]), fmt.Sprintf("record %d of %d: %s (reference reader gives %+v)", i, n, bad[0], ref[i]), cs)
+			k.fail("splat.Read", splatClause(f), splatEdgeClass(f, in[i])+"/"+sizeClass(n), fmt.Sprintf("record %d of %d (reader: %s): %s (reference reader gives %+v)", i, n, modeName(mode), bad[0], ref[i]), cs)
 		}
 		if !sameSplat(out[i], ref[i]) {
 			outcome = "mismatch"
-			k.fail("splat.Read", "splat i read back is the dequantisation of record i", fmt.Sprintf("record-%d", min(i, 1)), fmt.Sprintf("record %d of %d: read %+v, reference reader gives %+v", i, n, out[i], ref[i]), cs)
+			reported++
+			k.fail("splat.Read", "splat i read back is the dequantisation of record i", fmt.Sprintf("record-%d/%s/%s", min(i, 1), sizeClass(n), modeName(mode)), fmt.Sprintf("record %d of %d (reader: %s): read %+v, reference reader gives %+v", i, n, modeName(mode), out[i], ref[i]), cs)
 		}
 	}
+}
+
+// sizeClass separates the small scopes from the size ladder in violation classes.
+func sizeClass(n int) string {
+	if n <= 5 {
+		return "small"
+	}
+	return "ladder"
 }
 
 func splatClause(field string) string {
@@ -287,7 +314,7 @@ func (k *checker) runSplat() {
 	c := k.c
 	// n = 0
 	if k.mine() {
-		k.splatCase(nil, "splat/n=0")
+		k.splatCase(nil, "splat/n=0", Case{})
 	}
 	// n = 1: products of the field alphabets
 	nr := 625
@@ -315,7 +342,7 @@ func (k *checker) runSplat() {
 				for f := 0; f < 125; f++ {
 					for s := 0; s < 27; s++ {
 						for p := range posA {
-							k.splatCase([]SplatIn{{Pos: posA[p], Scale: tri(scaleA, s), FDC: tri(fdcA, f), Op: opA[o], Rot: rot(r)}}, "splat/n=1")
+							k.splatCase([]SplatIn{{Pos: posA[p], Scale: tri(scaleA, s), FDC: tri(fdcA, f), Op: opA[o], Rot: rot(r)}}, "splat/n=1", Case{Reader: (r + o + f + s + p) % 4})
 						}
 					}
 				}
@@ -333,7 +360,7 @@ func (k *checker) runSplat() {
 			for o := range opA {
 				for f := 0; f < 5; f++ {
 					for s := 0; s < 3; s++ {
-						k.splatCase([]SplatIn{{Pos: posA[(r+o+f+s)%len(posA)], Scale: diag(scaleA, s), FDC: diag(fdcA, f), Op: opA[o], Rot: rot(r)}}, "splat/n=1")
+						k.splatCase([]SplatIn{{Pos: posA[(r+o+f+s)%len(posA)], Scale: diag(scaleA, s), FDC: diag(fdcA, f), Op: opA[o], Rot: rot(r)}}, "splat/n=1", Case{Reader: (r + o + f + s) % 4})
 					}
 				}
 			}
@@ -346,7 +373,7 @@ func (k *checker) runSplat() {
 				for o := range opA {
 					r := (f + s + o) % 5
 					k.splatCase([]SplatIn{{Pos: posA[(f+s+o)%len(posA)], Scale: tri(scaleA, s), FDC: tri(fdcA, f), Op: opA[o],
-						Rot: [4]float64{rotA[r], rotA[(r+1)%5], rotA[(r+2)%5], rotA[(r+3)%5]}}}, "splat/n=1")
+						Rot: [4]float64{rotA[r], rotA[(r+1)%5], rotA[(r+2)%5], rotA[(r+3)%5]}}}, "splat/n=1", Case{Reader: (f + s + o) % 4})
 				}
 			}
 		}
@@ -366,9 +393,12 @@ func (k *checker) runSplat() {
 			if c.Expired() {
 				return
 			}
-			k.splatCase([]SplatIn{alphabetSplat(a), alphabetSplat(b)}, "splat/n=2")
-			for d := 0; d < ka; d++ {
-				k.splatCase([]SplatIn{alphabetSplat(a), alphabetSplat(b), alphabetSplat(d)}, "splat/n=3")
+			// clouds of two and three splats: every reader behaviour
+			for mode := range readerModes {
+				k.splatCase([]SplatIn{alphabetSplat(a), alphabetSplat(b)}, "splat/n=2", Case{Reader: mode})
+				for d := 0; d < ka; d++ {
+					k.splatCase([]SplatIn{alphabetSplat(a), alphabetSplat(b), alphabetSplat(d)}, "splat/n=3", Case{Reader: mode})
+				}
 			}
 		}
 	}
